@@ -167,7 +167,7 @@ def why_date(di, m, yi, hi, mi):
 
 DAYEXPR = ["tomorrow", "on friday", "friday", "next monday", "12.03.2021", "march 3rd", "on the 15th", "morgen", "freitag", "3. april 2022",
            "yesterday", "saturday next week"]
-CLOCKS = [("8pm", 20, 0), ("8:30", 8, 30), ("20:15", 20, 15), ("9 uhr", 9, 0), ("half past 7", 7, 30), ("11:59 pm", 23, 59), ("0:05", 0, 5), ("12:30 pm", 12, 30)]
+CLOCKS = [("7 a.m.", 7, 0), ("8pm", 20, 0), ("8:30", 8, 30), ("20:15", 20, 15), ("9 uhr", 9, 0), ("half past 7", 7, 30), ("11:59 pm", 23, 59), ("0:05", 0, 5), ("12:30 pm", 12, 30)]
 CONN = ["", "at ", "um "]
 NDE, NCL = len(DAYEXPR), len(CLOCKS)
 
@@ -189,7 +189,7 @@ def compose_check(de, cl, conn, order, ts):
 
 def ob_compose(di: int, ci: int, ki: int, order: bool, tsi: int) -> bool:
     """
-    pre: 0 <= di < NDE and 0 <= ci < NCL and 0 <= ki < 3 and 0 <= tsi < 3
+    pre: 0 <= di < NDE and 0 <= ci < NCL and 0 <= ki < 3 and 0 <= tsi < 3 and (ki == 0 or tsi == 0)
     post: _
     """
     with NoTracing():
